@@ -16,8 +16,8 @@ use serde_json::Value;
 use std::collections::{BTreeMap, BTreeSet};
 use std::str::FromStr;
 
-pub const DERIVE_POOL: &[&str] = &["PartialEq", "Eq", "Hash", "oasgen::OaSchema", " serde_valid::Validate ", "fake::Dummy", "a::b::C", "not a (path", "\"unterminated", "PartialEq", "unclosed [", "]"];
-pub const SERVICE_NAMES: &[&str] = &["PetStore", "petstore", "Pet Store", "acme_corp", "HTTPBin", "Api2Go", "my-service", "X"];
+pub const DERIVE_POOL: &[&str] = &["PartialEq", "Eq", "Hash", "oasgen::OaSchema", " serde_valid::Validate ", "fake::Dummy", "a::b::C", "not a (path", "\"unterminated", "PartialEq", "unclosed [", "]", "Vec<(u8,Leaked"];
+pub const SERVICE_NAMES: &[&str] = &["PetStore", "petstore", "Pet Store", "acme_corp", "HTTPBin", "Api2Go", "my-service", "X", "Dev Env", "Talk Talk", "Home Base"];
 
 #[derive(Clone)]
 pub struct EmitCase { pub label: String, pub doc: Value, pub cfg: Cfg, pub features: Vec<String> }
@@ -56,7 +56,7 @@ pub fn gen_cases(prop: &str, tier: &str, seed: u64, rep: &mut Report) -> Vec<Emi
     // a replayed document is taken through every prior-state variant of the emit stage
     if let Some(c) = only_case() {
         let mut out = vec![c.clone()];
-        for v in ["regenerated_with_marker", "regenerated_over_an_earlier_revision", "regenerated_over_a_same_length_copy"] {
+        for v in ["regenerated_with_marker", "regenerated_over_an_earlier_revision", "regenerated_over_a_same_length_copy", "regenerated_over_a_reflowed_copy"] {
             if c.features.iter().any(|f| f == v) { continue; }
             let mut d = c.clone();
             d.features.push(v.to_string());
@@ -108,6 +108,7 @@ pub fn gen_cases(prop: &str, tier: &str, seed: u64, rep: &mut Report) -> Vec<Emi
         if i % 5 == 3 { features.push("regenerated_with_marker".to_string()); }
         if i % 5 == 1 { features.push("regenerated_over_an_earlier_revision".to_string()); }
         if i % 10 == 6 { features.push("regenerated_over_a_same_length_copy".to_string()); }
+        if i % 10 == 2 { features.push("regenerated_over_a_reflowed_copy".to_string()); }
         cases.push(EmitCase { label: format!("(generated seed={seed} index={i} cfg={})", quote(&format!("{:?}", cfg))), doc, cfg, features });
     }
     cases
@@ -142,6 +143,16 @@ pub fn run_real(c: &EmitCase) -> Result<Emitted, String> {
             let mut nb = b.clone();
             if let Some(i) = nb.iter().rposition(|x| x.is_ascii_lowercase()) { nb[i] = if nb[i] == b'z' { b'a' } else { nb[i] + 1 }; }
             let _ = std::fs::write(d.join(&p), nb);
+        }
+        r = generate(&spec, &c.cfg, &d);
+    }
+    // ... or over a copy of itself whose doc comments differ in blanks only (an earlier revision of the descriptions)
+    if r.is_ok() && c.features.iter().any(|f| f == "regenerated_over_a_reflowed_copy") {
+        for (p, b) in read_tree(&d) {
+            if !p.ends_with(".rs") { continue; }
+            let text = String::from_utf8_lossy(&b).to_string();
+            let changed: String = text.lines().map(|l| if l.trim_start().starts_with("///") || l.contains("#[doc") { l.replacen(' ', "  ", 2) } else { l.to_string() }).collect::<Vec<_>>().join("\n") + "\n";
+            let _ = std::fs::write(d.join(&p), changed);
         }
         r = generate(&spec, &c.cfg, &d);
     }
